@@ -147,11 +147,9 @@ def _st_native(c, p):
     if kind == 'object':
         item = object()
     saved = uu.recursively_save_dict_contents_to_output
-    uu.recursively_save_dict_contents_to_output = lambda g, d: trace.append(('save_dict', 'root/name', d))
-    try:
+    from pyvc.unit import patched
+    with patched(saved, lambda g, d: trace.append(('save_dict', 'root/name', d))):
         uu.store_thing(_rec_group(trace), 'name', item)
-    finally:
-        uu.recursively_save_dict_contents_to_output = saved
     return None, dict(p, __trace__=trace)
 
 
@@ -197,11 +195,9 @@ def _rs_native(c, p):
         if item is None or type(item) is object:
             raise TypeError
         trace.append(('store', 'root', k))
-    uu.store_thing = store
-    try:
+    from pyvc.unit import patched
+    with patched(saved, store):
         uu.recursively_save_dict_contents_to_output(_rec_group([]), dic)
-    finally:
-        uu.store_thing = saved
     return None, dict(p, __trace__=trace)
 
 
